@@ -256,6 +256,7 @@ def pred_poller(case, stats):
         from cpppo.remote.plc_modbus import poller_modbus
         from cpppo.remote.pymodbus_fixes import modbus_client_tcp
         from pymodbus.pdu.register_message import ReadHoldingRegistersRequest, ReadHoldingRegistersResponse
+        from pymodbus.pdu.bit_message import ReadCoilsRequest, ReadCoilsResponse
     except Exception as exc:        # pymodbus flavour not importable here: the clause does not apply
         stats.exclude('poller clause: pymodbus pieces not importable (%s)' % type(exc).__name__)
         return
@@ -272,6 +273,15 @@ def pred_poller(case, stats):
             return True
 
         def execute(self, no_response_expected, request):
+            if isinstance(request, ReadCoilsRequest):
+                # coil xxxx is on unless xxxx is a multiple of 3; the response goes through pymodbus' own encoding, which carries
+                # whole bytes (the decoded bit list is padded to a multiple of 8)
+                polled.append((1 + request.address, request.count))
+                sent = ReadCoilsResponse(dev_id=request.dev_id, transaction_id=request.transaction_id,
+                                         bits=[(1 + request.address + i) % 3 != 0 for i in range(request.count)])
+                rsp = ReadCoilsResponse(dev_id=request.dev_id, transaction_id=request.transaction_id)
+                rsp.decode(sent.encode())
+                return rsp
             if not isinstance(request, ReadHoldingRegistersRequest):
                 raise common.HarnessError('unexpected Modbus request %r' % (request,))
             polled.append((40001 + request.address, request.count))
@@ -291,17 +301,20 @@ def pred_poller(case, stats):
     finally:
         plc.stop()
     span = requested[-1] - requested[0] + 1
-    stats.case(case, nontrivial=span > 123 and len(requested) >= 2, classes=['poller:span>limit' if span > 123 else 'poller:span<=limit',
-                                                                            'poller:registers:%d' % min(len(requested), 5)])
-    wrong = {a: v for a, v in values.items() if v != a - 40000}
+    near = requested[0] < 10000 and any(0 < b - a < 8 and b - a > (case['reach'] or 0) for a, b in zip(requested, requested[1:]))
+    stats.case(case, nontrivial=(span > 123 and len(requested) >= 2) or near,
+               classes=['poller:span>limit' if span > 123 else 'poller:span<=limit', 'poller:registers:%d' % min(len(requested), 5)] + (
+                   ['poller:coils'] if requested[0] < 10000 else []) + (['poller:coils:unmerged-neighbour-within-8'] if near else []))
+    coils = requested[0] < 10000
+    wrong = {a: v for a, v in values.items() if (v is None or bool(v) != (a % 3 != 0) if coils else v != a - 40000)}
     if wrong:
         stats.fail('poller', 'poller:requested-register-never-receives-its-value', case,
                    observed={'values': {str(a): v for a, v in sorted(wrong.items())[:6]}, 'polled': sorted(set(polled))[:8]},
                    expected='every requested register is inside a polled range and holds the value read there')
     covered = set()
     for a, c in set(polled):
-        if c > 125:
-            stats.fail('poller', 'poller:piece-exceeds-limit', case, observed={'piece': [a, c]}, expected='<= 125 registers per read')
+        if c > (2000 if coils else 125):
+            stats.fail('poller', 'poller:piece-exceeds-limit', case, observed={'piece': [a, c]}, expected='<= 125 registers (2000 coils) per read')
         covered.update(range(a, a + c))
     if not set(requested) <= covered:
         stats.fail('poller', 'poller:requested-register-not-polled', case,
@@ -311,6 +324,15 @@ def pred_poller(case, stats):
 
 @st.composite
 def poller_cases(draw):
+    if draw(st.booleans()):
+        # coils: short runs with small gaps and a small reach (bit responses carry whole bytes)
+        reach = draw(st.sampled_from([1, 1, 2, 5, 10]))
+        regs = [1 + draw(st.integers(0, 500))]
+        for _ in range(draw(st.integers(1, 3))):
+            for _ in range(draw(st.integers(0, 12))):       # a run of adjacent coils ...
+                regs.append(regs[-1] + 1)
+            regs.append(regs[-1] + draw(st.sampled_from([reach + 1, reach + 2, 7, 8, 9, 20])))     # ... and one a short gap beyond it
+        return {'registers': regs, 'reach': reach}
     base = 40001 + draw(st.integers(0, 500))
     regs = [base]
     for _ in range(draw(st.integers(1, 7))):
@@ -388,7 +410,7 @@ def run(tier, seed):
     n = 20000 if thorough else 2500
     shards = 32 if thorough else 16
     common.parallel(shard_random, [(seed, i, n) for i in range(shards)], stats=stats)
-    common.parallel(shard_poller, [(seed, i, 12 if thorough else 3) for i in range(16)], stats=stats)
+    common.parallel(shard_poller, [(seed, i, 24 if thorough else 8) for i in range(16)], stats=stats)
     return stats
 
 
